@@ -35,7 +35,7 @@ fn parse_def(t: &[&str]) -> Option<(String, DictSrc)> {
     ))
 }
 
-fn parse_tok(t: &[&str]) -> Option<(String, String, Vec<DOp>, bool, usize, Vec<WOp>)> {
+fn parse_tok(t: &[&str]) -> Option<(String, String, Vec<DOp>, bool, usize, Vec<WOp>, String)> {
     let id = t.get(1)?.to_string();
     let dname = t.get(2)?.to_string();
     let mut i = 3;
@@ -77,6 +77,11 @@ fn parse_tok(t: &[&str]) -> Option<(String, String, Vec<DOp>, bool, usize, Vec<W
     let ign = *t.get(i + 1)? == "1";
     let maxg: usize = t.get(i + 2)?.parse().ok()?;
     i += 3;
+    let mut hist = String::new();
+    if t.get(i)?.starts_with('H') {
+        hist = t[i].to_string();
+        i += 1;
+    }
     if *t.get(i)? != "WOPS" {
         return None;
     }
@@ -104,7 +109,7 @@ fn parse_tok(t: &[&str]) -> Option<(String, String, Vec<DOp>, bool, usize, Vec<W
             }
         }
     }
-    Some((id, dname, dops, ign, maxg, wops))
+    Some((id, dname, dops, ign, maxg, wops, hist))
 }
 
 fn parse_rewrite(t: &[&str]) -> Option<(String, Vec<(Vec<String>, Vec<String>)>, Vec<String>)> {
@@ -154,10 +159,10 @@ pub fn run(path: &str, out: &mut dyn Write) {
                 }
             }
             Some("tok") => {
-                if let Some((id, dname, dops, ign, maxg, wops)) = parse_tok(&t) {
+                if let Some((id, dname, dops, ign, maxg, wops, hist)) = parse_tok(&t) {
                     if let Some(d) = dicts.get(&dname) {
                         if let Some(Ok(dict)) = tok::build_dict(d) {
-                            writeln!(out, "{}", tok::case_line(&id, &dname, dict, &dops, ign, maxg, &wops)).unwrap();
+                            writeln!(out, "{}", tok::case_line_hist(&id, &dname, dict, &dops, &hist, ign, maxg, &wops)).unwrap();
                         }
                     }
                 }
